@@ -261,12 +261,8 @@ func (vc *VC) callFuncValue(st *State, x *ast.CallExpr, ci *calleeInfo, sig *typ
 	vc.assert(st, "nil", sNot(sEq(fv.S, "0")), x.Pos(), "call of nil function value")
 	name := exprString(ci.fvalue)
 	// callback contract?
-	if vc.contract != nil {
-		for _, cb := range vc.contract.Callbacks {
-			if cb.Name == name {
-				return vc.callCallback(st, x, cb, sig, fv, args)
-			}
-		}
+	if cb := vc.callbackSpec(name); cb != nil {
+		return vc.callCallback(st, x, cb, sig, fv, args)
 	}
 	vc.uncontracted["<funcvalue> "+name] = true
 	vc.havocAllHeaps(st)
@@ -293,9 +289,13 @@ func (vc *VC) callByContract(st *State, x *ast.CallExpr, fc *FuncContract, ci *c
 	}
 	ctx := vc.newSpecCtx(fc, st, st)
 	ctx.typeArgs = ci.typeArgs
+	ctx.cbinv = vc.contract
 	vc.bindParams(ctx, fc, ci.fn, recv, args)
 	callOrd := vc.counters["call"]
 	vc.counters["call"] = callOrd + 1
+	if len(fc.Callbacks) > 0 {
+		vc.refineCallbacks(st, x, fc, ci, recv, args, callOrd)
+	}
 	for k, r := range fc.Requires {
 		t := ctx.tr(r.Expr)
 		vc.assertNamed(st, fmt.Sprintf("pre[%d:%s,%d]", callOrd, shortKey(fc.Key), k), "pre", t.S, x.Pos(), "precondition of "+fc.Key+": "+r.Text)
@@ -608,23 +608,36 @@ func (vc *VC) callCallback(st *State, x *ast.CallExpr, cb *CallbackSpec, sig *ty
 	}
 	ord := vc.counters["call"]
 	vc.counters["call"] = ord + 1
+	for _, g := range cb.Ghosts {
+		ctx.vars[g.Name] = vc.bind("gh_"+g.Name, ctx.tr(g.Expr.Expr))
+	}
 	for k, r := range cb.Requires {
 		t := ctx.tr(r.Expr)
 		vc.assertNamed(st, fmt.Sprintf("pre[%d:callback %s,%d]", ord, cb.Name, k), "pre", t.S, x.Pos(), "callback precondition: "+r.Text)
+	}
+	for k, r := range cb.Provides {
+		t := ctx.tr(r.Expr)
+		vc.assertNamed(st, fmt.Sprintf("provides[%d:callback %s,%d]", ord, cb.Name, k), "pre", t.S, x.Pos(), "callback guarantee to implementers: "+r.Text)
 	}
 	old := st.clone()
 	if !cb.Frameless {
 		vc.havocAllHeaps(st)
 	}
+	// the abstract callback invariant is owned by the callbacks
+	cv := vc.cbinvVar()
+	st.vars[cv] = vc.fresh("cbinv", &Sort{Kind: KSet, Name: "(Array Int Bool)", Elem: sortInt})
 	results := vc.freshResults(st, sig, "r_"+smtName(cb.Name))
 	// ghost bookkeeping: number of calls and the error returned by the last call
 	nv := vc.callbackVar("ncalls", cb.Name)
 	cur := vc.readVar(st, nv)
 	st.vars[nv] = Term{"(+ " + cur.S + " 1)", sortInt}
 	for i := 0; i < sig.Results().Len(); i++ {
-		if vc.U.sortOf(sig.Results().At(i).Type()).Kind == KAny {
+		if types.TypeString(sig.Results().At(i).Type(), nil) == "error" {
 			st.vars[vc.callbackVar("lasterr", cb.Name)] = results[i]
 		}
+	}
+	if sig.Results().Len() > 1 {
+		st.vars[vc.callbackVar("lastres", cb.Name)] = Term{results[0].S, sortAny}
 	}
 	ctx.cur, ctx.old = st, old
 	for i, r := range results {
@@ -654,6 +667,9 @@ func (vc *VC) callbackVar(kind, name string) *types.Var {
 	if kind == "lasterr" {
 		t = types.Universe.Lookup("error").Type()
 	}
+	if kind == "lastres" {
+		t = types.NewInterfaceType(nil, nil)
+	}
 	v := types.NewVar(token.NoPos, vc.pkg.Types, "$"+key, t)
 	vc.cbVars[key] = v
 	// initial value at function entry
@@ -663,4 +679,53 @@ func (vc *VC) callbackVar(kind, name string) *types.Var {
 		vc.entry.vars[v] = Term{"anynil", sortAny}
 	}
 	return v
+}
+
+
+// cbinvVar: the ghost set {d | the abstract callback invariant holds at depth d}.
+func (vc *VC) cbinvVar() *types.Var {
+	if vc.cbinvV == nil {
+		vc.cbinvV = types.NewVar(token.NoPos, vc.pkg.Types, "$cbinv", types.Typ[types.Int])
+		t := vc.fresh("cbinv", &Sort{Kind: KSet, Name: "(Array Int Bool)", Elem: sortInt})
+		vc.entry.vars[vc.cbinvV] = t
+	}
+	return vc.cbinvV
+}
+
+
+// callbackSpec: the callback contract for a function value called in this unit. A function literal
+// inherits the callback contracts its enclosing function declares for variables it captures: the
+// exported part (frameless/ghost/provides/ensures) comes from the enclosing contract, the literal's own
+// contract may add internal `requires`.
+func (vc *VC) callbackSpec(name string) *CallbackSpec {
+	var own *CallbackSpec
+	if vc.contract != nil {
+		for _, cb := range vc.contract.Callbacks {
+			if cb.Name == name {
+				own = cb
+			}
+		}
+	}
+	var inherited *CallbackSpec
+	for u := vc.unit.Parent; u != nil && inherited == nil; u = u.Parent {
+		if pc := vc.eng.contracts[u.Key]; pc != nil {
+			for _, cb := range pc.Callbacks {
+				if cb.Name == name {
+					inherited = cb
+				}
+			}
+		}
+	}
+	switch {
+	case own == nil:
+		return inherited
+	case inherited == nil:
+		return own
+	}
+	m := &CallbackSpec{Name: name, Frameless: own.Frameless || inherited.Frameless}
+	m.Ghosts = append(append([]CallbackGhost{}, inherited.Ghosts...), own.Ghosts...)
+	m.Requires = append(append([]*Clause{}, inherited.Requires...), own.Requires...)
+	m.Provides = append(append([]*Clause{}, inherited.Provides...), own.Provides...)
+	m.Ensures = append(append([]*Clause{}, inherited.Ensures...), own.Ensures...)
+	return m
 }
